@@ -1,9 +1,11 @@
+pub mod c05;
 pub mod c06;
 
 use crate::exec::Engine;
 
 pub fn get(prop: &str) -> Option<&'static dyn Engine> {
     Some(match prop {
+        "C05" => &c05::C05,
         "C06" => &c06::C06,
         _ => return None,
     })
